@@ -222,7 +222,7 @@ def handleObs (st : St) (toks : List String) (out : IO.FS.Stream) : IO St := do
           -- the book's own trading flag (read from its snapshot state) is the one last requested
           match op, hiddenOf toks with
           | .trading on, some hs =>
-            if (splitC hs "/")[1]? != some (if on then "1" else "0") then
+            if (splitC hs "/").length == 3 && (splitC hs "/")[1]? != some (if on then "1" else "0") then
               emit out s!"A C13 {h.id} {h.opIdx} flag_in_snapshot_not_switched tr={if prev.trading then 1 else 0} op={opLine}"
               st := { st with nA := st.nA + 1 }
           | _, _ => pure ()
